@@ -1,6 +1,7 @@
 package c13dst
 
 import (
+	"bytes"
 	"fmt"
 	"strings"
 )
@@ -59,9 +60,14 @@ func header(d Dest, seq int) string {
 	case Relay:
 		a := alphaOf(d)
 		return a.Chars[:1] + enc(seq, 3, a.Chars) + a.Chars[len(a.Chars)-1:]
+	case Stderr:
+		return fmt.Sprintf("%s%d:", StderrMark, seq)
 	}
 	return "o" + enc(seq, 3, AlphaProg.Chars) + "x"
 }
+
+// StderrMark starts every line the program writes to "/dev/stderr".
+const StderrMark = "@e:"
 
 func sysHeader(seq int) string { return fmt.Sprintf("%04d#", seq) }
 
@@ -91,26 +97,115 @@ func SysPayload(op Op) []byte {
 	return append(payloadBytes(AlphaSys, sysHeader(op.Seq), padOff(AlphaSys, op.Seq, 0), op.Size), AlphaSys.Term...)
 }
 
+// QValue is the middle argument of a print3q statement: a value that must be quoted in
+// CSV/TSV output (an embedded double quote, a leading space, the separator itself).
+func QValue(seq int, mode string) string {
+	switch seq % 3 {
+	case 0:
+		return `q"q`
+	case 1:
+		return " lead"
+	}
+	return "s" + string(SepOf(mode)) + "s"
+}
+
+// SepOf is the field separator of an output mode.
+func SepOf(mode string) byte {
+	if mode == ModeTSV {
+		return '\t'
+	}
+	return ','
+}
+
+// csvField is the RFC 4180 encoding of one field as goawk documents it for CSV/TSV output
+// mode (docs/csv.md: what encoding/csv writes): a field is quoted when it contains the
+// separator, a double quote, CR or LF, or starts with a space (or is `\.`); quotes inside are
+// doubled.  Written here independently of encoding/csv.
+func csvField(f []byte, sep byte) []byte {
+	need := string(f) == `\.`
+	for i, c := range f {
+		if c == sep || c == '"' || c == '\r' || c == '\n' || (i == 0 && (c == ' ' || c == '\t' || c == '\v' || c == '\f')) {
+			need = true
+		}
+	}
+	if !need {
+		return f
+	}
+	out := []byte{'"'}
+	for _, c := range f {
+		if c == '"' {
+			out = append(out, '"')
+		}
+		out = append(out, c)
+	}
+	return append(out, '"')
+}
+
+// CSVRow is what `print f1, f2, …` writes in CSV/TSV output mode: the encoded fields joined
+// by the separator and a newline (OFS and ORS are not used, docs/csv.md).
+func CSVRow(mode string, fields ...[]byte) []byte {
+	sep := SepOf(mode)
+	var out []byte
+	for i, f := range fields {
+		if i > 0 {
+			out = append(out, sep)
+		}
+		out = append(out, csvField(f, sep)...)
+	}
+	return append(out, '\n')
+}
+
 // LineBytes returns exactly what a Print op must add to its destination. rec is the text of
-// the current input record (print0).
-func LineBytes(op Op, rec string) []byte {
+// the current input record (print0), mode the output mode in force, crlf the newline output mode.
+func LineBytes(op Op, rec string, mode string, crlf bool) []byte {
+	b := lineBytesLF(op, rec, mode)
+	if crlf {
+		b = bytes.ReplaceAll(b, []byte("\n"), []byte("\r\n"))
+	}
+	return b
+}
+
+func lineBytesLF(op Op, rec string, mode string) []byte {
 	a := alphaOf(op.Dest)
 	p := Payload(op)
+	csv := mode == ModeCSV || mode == ModeTSV
 	switch op.Form {
 	case FPrint1:
+		if csv {
+			return CSVRow(mode, p)
+		}
 		return append(p, '\n')
 	case FPrint2:
 		h := len(p) / 2
+		if csv {
+			return CSVRow(mode, p[:h], p[h:])
+		}
 		out := append([]byte{}, p[:h]...)
 		out = append(out, 'z') // OFS
+		out = append(out, p[h:]...)
+		return append(out, '\n')
+	case FPrint3Q:
+		h := len(p) / 2
+		q := []byte(QValue(op.Seq, mode))
+		if csv {
+			return CSVRow(mode, p[:h], q, p[h:])
+		}
+		// (not generated outside CSV/TSV mode; total for replayed or hand-written histories)
+		out := append([]byte{}, p[:h]...)
+		out = append(out, 'z')
+		out = append(out, q...)
+		out = append(out, 'z')
 		out = append(out, p[h:]...)
 		return append(out, '\n')
 	case FPrintf:
 		return p
 	case FPrintfT, FPrintORS:
+		if op.Form == FPrintORS && csv {
+			return append(p, '\n') // print ignores ORS in CSV/TSV mode (not generated)
+		}
 		return append(p, a.Term...)
 	case FPrint0:
-		return []byte(rec + "\n")
+		return []byte(rec + "\n") // a bare print writes $0 and ORS in every output mode
 	}
 	panic("unknown form " + op.Form)
 }
@@ -118,9 +213,26 @@ func LineBytes(op Op, rec string) []byte {
 // ---- rendering -----------------------------------------------------------------------------
 
 type renderer struct {
-	h    *History
-	need map[string]int // big-string variable → required length
-	sb   strings.Builder
+	h      *History
+	need   map[string]int // big-string variable → required length
+	sb     strings.Builder
+	modeAt []string // output mode in force at each op (program order)
+}
+
+// ModesAt returns the output mode in force when each op executes (ops run in index order).
+func (h *History) ModesAt() []string {
+	l := make([]string, len(h.Ops))
+	m := h.Mode
+	for i, op := range h.Ops {
+		if op.Kind == SetMode {
+			m = op.Form
+			if m == "none" {
+				m = ModeNone
+			}
+		}
+		l[i] = m
+	}
+	return l
 }
 
 func awkQuote(s string) string {
@@ -133,6 +245,8 @@ func awkQuote(s string) string {
 			sb.WriteByte(c)
 		case '\n':
 			sb.WriteString("\\n")
+		case '\t':
+			sb.WriteString("\\t")
 		default:
 			sb.WriteByte(c)
 		}
@@ -169,6 +283,8 @@ func (r *renderer) destVar(d Dest) string {
 		return fmt.Sprintf("S%d", d.Idx)
 	case Relay:
 		return fmt.Sprintf("R%d", d.Idx)
+	case Stderr:
+		return `"/dev/stderr"`
 	}
 	return `"/dev/null/unused"`
 }
@@ -239,6 +355,8 @@ func (r *renderer) op(i int) string {
 		redir := ""
 		if op.Dest.Kind != Stdout {
 			redir = " " + op.Redir + " " + r.destVar(op.Dest)
+		} else if op.Name != "" {
+			redir = " " + op.Redir + " " + awkQuote(op.Name)
 		}
 		whole := r.sliceExpr(a, hdr, off, 0, op.Size)
 		switch op.Form {
@@ -247,6 +365,11 @@ func (r *renderer) op(i int) string {
 		case FPrint2:
 			h := op.Size / 2
 			return "print " + r.sliceExpr(a, hdr, off, 0, h) + ", " + r.sliceExpr(a, hdr, off, h, op.Size) + redir
+		case FPrint3Q:
+			h := op.Size / 2
+			// the output mode in force is a property of the run, not of the statement: the
+			// separator-bearing value is rendered from the mode the model tracks (r.modeAt)
+			return "print " + r.sliceExpr(a, hdr, off, 0, h) + ", " + awkQuote(QValue(op.Seq, r.modeAt[i])) + ", " + r.sliceExpr(a, hdr, off, h, op.Size) + redir
 		case FPrintf:
 			return `printf "%s", ` + whole + redir
 		case FPrintfT:
@@ -289,6 +412,11 @@ func (r *renderer) op(i int) string {
 			return "# (snap: API mode only)"
 		}
 		return fmt.Sprintf("snap(%d)", i)
+	case SetMode:
+		if op.Form == "none" {
+			return `OUTPUTMODE = ""`
+		}
+		return "OUTPUTMODE = " + awkQuote(op.Form)
 	}
 	panic("render: unknown op")
 }
@@ -318,7 +446,7 @@ func (h *History) HasEND() bool {
 // Render returns the AWK program of a history.  It refers to the variables W (work directory)
 // and, in CLI mode, VSH (path of the fake shell) which the runner passes with -v / Config.Vars.
 func Render(h *History) string {
-	r := &renderer{h: h, need: map[string]int{}}
+	r := &renderer{h: h, need: map[string]int{}, modeAt: h.ModesAt()}
 	// Ops are rendered first (that computes the big strings needed).
 	lines := make([]string, len(h.Ops))
 	for i := range h.Ops {
@@ -345,6 +473,9 @@ func Render(h *History) string {
 		sb.WriteString("}\n")
 	}
 	sb.WriteString("BEGIN {\n\tOFS = \"z\"\n")
+	if h.Mode != ModeNone && h.ModeVia == "begin" {
+		sb.WriteString("\tOUTPUTMODE = " + awkQuote(h.Mode) + "\n")
+	}
 	if h.CLI {
 		sb.WriteString("\tRESF = W \"/results\"; printf \"\" > RESF\n")
 	}
